@@ -129,7 +129,7 @@ func cmdC11Enum(args []string) error {
 		}
 		for _, bs := range parseInts(*bss) {
 			ctx := wsync.NewContext(bs)
-			lib := wsync.NewBlockLibrary(signFiles(bs, olds))
+			lib := libraryOf(signFiles(bs, olds), true)
 			for _, src := range newSeqs {
 				for _, pref := range prefList {
 					ops := realDiff(ctx, lib, bytes.NewReader(src), int64(pref-1))
@@ -380,7 +380,7 @@ func cmdC11Large(args []string) error {
 		rng := newRand(int64(1100 + k))
 		bs, olds, src, pref, desc := buildLargeCase(rng, k)
 		ctx := wsync.NewContext(bs)
-		lib := wsync.NewBlockLibrary(signFiles(bs, olds))
+		lib := libraryOf(signFiles(bs, olds), k%2 == 0)
 		chunk := 0
 		var rd io.Reader = bytes.NewReader(src)
 		if k%3 == 1 {
@@ -429,6 +429,25 @@ func cmdC11Large(args []string) error {
 	}
 	fmt.Printf("{\"lines\":%d}\n", w.n)
 	return w.close()
+}
+
+
+// libraryOf builds the block library the differ searches. The signature slice it was built from is then RECYCLED
+// by the "caller" (overwritten with records of another signing, as a caller with one scratch slice per run would
+// do): the library must be a snapshot of the signature, not a view of the caller's slice.
+func libraryOf(sig []wsync.BlockHash, recycle bool) *wsync.BlockLibrary {
+	lib := wsync.NewBlockLibrary(sig)
+	if recycle {
+		for i := range sig {
+			// same content at the same slot, but another address (file boundaries moved), or a foreign record
+			if i%2 == 0 {
+				sig[i].FileIndex, sig[i].BlockIndex = sig[i].FileIndex+1, sig[i].BlockIndex+7
+			} else {
+				sig[i] = wsync.BlockHash{FileIndex: 99, BlockIndex: int64(i), WeakHash: ^sig[i].WeakHash}
+			}
+		}
+	}
+	return lib
 }
 
 func init() {
